@@ -388,6 +388,9 @@ func runC07(c *Ctx) {
 		c.verdict(c.fnKey(f), f.Pos(), good, "FetchedSize re-read from the blob before every marshal", "state file reports a stale fetched size")
 	}
 	runC07extra(c, rd, whp, opqDir)
+	clauseExistingDirReused(c, "C07.j")
+	clauseWhiteoutInodeFromMarker(c, "C07.k")
+	clauseLookupMemoryNodeAttrs(c, "C07.l")
 	c.assume("overlayfs interprets a 0/0 character device as a whiteout and the configured xattr as opaque marker")
 }
 
@@ -492,6 +495,8 @@ func runC02(c *Ctx) {
 	clausePrivateCaches(c, "C02.f")
 	clauseSortedChunks(c, "C02.g")
 	clausePreReadAccounting(c, "C02.i")
+	clauseLookupMemoryNodeAttrs(c, "C02.j")
+	clauseResetCoversDecodedFields(c, "C02.k")
 	clauseKeyInjective(c, "C02.h", [][2]string{{"fs/reader", "genID"}, {"fs/remote", "(*httpFetcher).genID"}})
 
 	// ---------- C02.a ----------
